@@ -73,6 +73,29 @@ fn channel_program(value_prog: &str, dummy: bool) -> String {
     )
 }
 
+/// A value made by an action spawned on another thread (`std.thread.prim.spawn_on`): on a new
+/// child (hop 0), or made on one new thread, captured by an action that runs on a *sibling* of
+/// that thread and handed back (hop 1: the action and its upvalues cross between heaps that may
+/// not share)
+fn spawn_on_program(value_prog: &str, hop: u64) -> String {
+    let body = value_prog
+        .trim_start_matches(gen::PREAMBLE)
+        .trim_start_matches(EXTRA)
+        .trim_start_matches("let mk u = ")
+        .trim_end()
+        .trim_end_matches("mk ()")
+        .trim();
+    let run = if hop == 0 {
+        "io.flat_map (\\t1 -> io.flat_map (\\fut -> fut) (th.spawn_on t1 (io.flat_map (\\u -> io.wrap (mk ())) (io.wrap ())))) (th.new_thread ())"
+    } else {
+        "io.flat_map (\\t1 -> io.flat_map (\\t2 -> io.flat_map (\\fut -> fut) (th.spawn_on t1 (io.flat_map (\\u -> (let v = mk () in io.flat_map (\\fut2 -> fut2) (th.spawn_on t2 (io.flat_map (\\u2 -> io.wrap v) (io.wrap ()))))) (io.wrap ())))) (th.new_thread ())) (th.new_thread ())"
+    };
+    format!(
+        "{}{}let io = import! std.io.prim\nlet th = import! std.thread.prim\nlet mk u = {}\n{}\n",
+        gen::PREAMBLE, EXTRA, body, run
+    )
+}
+
 struct Slot {
     vm: usize,
     t: usize,
@@ -162,10 +185,10 @@ impl Engine for C13 {
 
     fn info(&self) -> EngineInfo {
         EngineInfo {
-            rule: "one run = a forest of 1-2 unrelated VMs, each a tree of 1-5 gluon threads (depth <= 3), and a generated history of: make a value on a thread (generated data, arrays of every representation incl. byte/float/string/nested/record/reference/lazy elements, cyclic variants, closures over shared upvalues, closures over closures, partial applications of closures and of extern functions, records sharing a sub-value, reference/lazy cells, recursive closures); move it with RootedValue::re_root to any thread of any VM (optionally under a memory limit on the receiver: allocation failure during the clone); create it in a coroutine and send it to the parent over a channel; then any order of collect(thread), drop handle, drop a leaf thread, drop a whole VM, re-encode a handle, call a received closure. Forced collections throughout. Oracles: the guarded graph encoding (DFS numbering, sharing and cycles included) of every copy equals the original's, before and after the sender is collected/dropped; received closures return isomorphic results; after every operation the Trace-driven walker finds no freed object and no pointer from a heap into a heap that is not itself or an ancestor. Non-trivial = at least one transfer between heaps that may not share happened and a later operation ran; distinct = distinct hash of (workload, tape).",
+            rule: "one run = a forest of 1-2 unrelated VMs, each a tree of 1-5 gluon threads (depth <= 3), and a generated history of: make a value on a thread (generated data, arrays of every representation incl. byte/float/string/nested/record/reference/lazy elements, cyclic variants, closures over shared upvalues, closures over closures, partial applications of closures and of extern functions, records sharing a sub-value, reference/lazy cells, recursive closures); move it with RootedValue::re_root to any thread of any VM (optionally under a memory limit on the receiver: allocation failure during the clone); create it in a coroutine and send it to the parent over a channel; have it returned by an action spawned with spawn_on on a new child thread, or made on one thread, captured by an action that runs on a sibling thread and handed back; push a foreign handle as a function argument; then any order of collect(thread), drop handle, drop a leaf thread, drop a whole VM, re-encode a handle, call a received closure. Forced collections throughout. Oracles: the guarded graph encoding (DFS numbering, sharing and cycles included) of every copy equals the original's, before and after the sender is collected/dropped; received closures return isomorphic results; after every operation the Trace-driven walker finds no freed object and no pointer from a heap into a heap that is not itself or an ancestor. Non-trivial = at least one transfer between heaps that may not share happened and a later operation ran; distinct = distinct hash of (workload, tape).",
             real: vec!["Cloner / deep_clone_* (vm/src/value.rs), can_share_values_with, Generation::can_contain_values_from, RootedValue::re_root, channel send/recv, spawn, Userdata::deep_clone of Reference/Lazy, Gc of every thread, Thread/VM drop"],
             stubbed: vec!["collection trigger (tape)", "freed blocks are poisoned and quarantined", "host = generated operation list"],
-            not_exercised: vec!["spawn_on/join between OS threads (C14)", "Pushable for RootedValue as a call argument"],
+            not_exercised: vec!["spawn_on/join between OS threads (C14)"],
             fault_kinds: vec!["gc (forced collection)", "host_collect", "fault_oom_during_clone", "drop_thread", "drop_vm"],
             assumptions: vec![
                 "under an injected allocation failure the transfer may fail with an error; ownership and use-after-free oracles are never relaxed",
@@ -208,9 +231,13 @@ impl Engine for C13 {
             } else if roll < 54 {
                 ops.push(json!({ "op": "pusharg", "slot": rng.below(slots), "vm": v, "t": t }));
                 slots += 1;
-            } else if roll < 60 {
+            } else if roll < 58 {
                 let (prog, callable) = value_program(rng);
                 ops.push(json!({ "op": "chan", "vm": v, "t": t, "prog": prog, "callable": callable }));
+                slots += 1;
+            } else if roll < 62 {
+                let (prog, callable) = value_program(rng);
+                ops.push(json!({ "op": "spawnon", "hop": rng.below(2), "vm": v, "t": t, "prog": prog, "callable": callable }));
                 slots += 1;
             } else if roll < 70 {
                 ops.push(json!({ "op": "collect", "vm": v, "t": t }));
@@ -271,7 +298,7 @@ impl Engine for C13 {
             };
             run::set_context(format!("op {} `{}`", i, kind));
             match kind {
-                "make" | "chan" => {
+                "make" | "chan" | "spawnon" => {
                     let Some((t, thread)) = live_thread(&world, v, t_req) else { continue };
                     let src = op["prog"].as_str().unwrap_or("0");
                     let direct = thread.run_expr::<OpaqueValue<RootedThread, Hole>>(&format!("v{}", i), src);
@@ -285,18 +312,20 @@ impl Engine for C13 {
                         }
                     };
                     let enc = direct.get_variant().verif_encode_graph();
-                    let value = if kind == "chan" {
-                        let csrc = channel_program(src, false);
+                    let value = if kind == "chan" || kind == "spawnon" {
+                        let hop = op["hop"].as_u64().unwrap_or(0);
+                        let csrc = if kind == "chan" { channel_program(src, false) } else { spawn_on_program(src, hop) };
+                        run::set_context(format!("op {} `{}`{}", i, kind, if kind == "spawnon" && hop == 1 { " (value handed through an action running on a sibling thread)" } else { "" }));
                         match thread.run_expr::<OpaqueValue<RootedThread, Hole>>(&format!("c{}", i), &csrc) {
                             Ok((val, _)) => {
                                 let val = val.into_inner();
                                 let enc2 = val.get_variant().verif_encode_graph();
                                 transfers += 1;
-                                run::count("transfer_channel", 1);
+                                run::count(if kind == "chan" { "transfer_channel" } else if hop == 0 { "transfer_spawn_on_child" } else { "transfer_spawn_on_sibling" }, 1);
                                 if enc2 != enc {
                                     return Err(Violation::new(
                                         "not-isomorphic",
-                                        format!("a value sent from a coroutine to its parent over a channel differs from the value made directly: sent `{}` received `{}`", clip(&enc), clip(&enc2)),
+                                        format!("a value {} differs from the value made directly: sent `{}` received `{}`", if kind == "chan" { "sent from a coroutine to its parent over a channel" } else { "returned by an action spawned on another thread" }, clip(&enc), clip(&enc2)),
                                     ));
                                 }
                                 val
